@@ -160,3 +160,16 @@ Qed.
 Example jit_copy_example : exists h m1, flatten SectionExamples.ex_h3 = (EOk, h) /\
   copy_flat h (repeat 205 104) 104 true false = (EOk, m1) /\ jit_copy h (repeat 205 104) = m1.
 Proof. eexists. eexists. split; [vm_compute; reflexivity|]. split; vm_compute; reflexivity. Qed.
+
+(* code->_sections (the by-id walk) visits every section of the holder exactly once *)
+Theorem sections_by_id_permutation h : reachable h -> Permutation (sections_by_id h) h.
+Proof.
+  intros R. destruct (reachable_ids_unique h R) as [Hnd Hpos]. destruct (reachable_inv h R) as [_ [Hi _]].
+  assert (Hrange : forall x, In x h -> 0 <= sid x < Z.of_nat (length h)).
+  { intros x Hx. assert (In (sid x) (ids_upto (length h))) by (eapply Permutation_in; [exact Hi|apply in_map; assumption]).
+    apply in_ids_upto in H. assumption. }
+  apply NoDup_Permutation.
+  - apply (NoDup_map_inv sid). apply (by_id_list_spec h (length h) 0).
+  - apply (NoDup_map_inv sid). assumption.
+  - intros x. apply sections_by_id_in; assumption.
+Qed.
